@@ -291,6 +291,22 @@ func (s *vOrderState) publish(ev string) {
 		o2 := s.oid
 		o2.DSeq = 13
 		_ = s.bus.Publish(mtypes.NewEventOrderClosed(o2))
+	case "sibling-lease-won":
+		// this provider wins the lease of ANOTHER group of the same deployment
+		// (same order sequence number, as every group's first order has): not
+		// this order's lease
+		o2 := s.oid
+		o2.GSeq = s.oid.GSeq + 1
+		_ = s.bus.Publish(mtypes.NewEventLeaseCreated(mtypes.MakeLeaseID(mtypes.MakeBidID(o2, s.prov)), sdk.NewInt64Coin("uakt", 60)))
+	case "sibling-order-closed":
+		o2 := s.oid
+		o2.GSeq = s.oid.GSeq + 1
+		_ = s.bus.Publish(mtypes.NewEventOrderClosed(o2))
+		// (a lease for a LATER order of the same group is not a possible input:
+		// the chain opens order n+1 of a group only after order n was closed or
+		// matched, and either event has ended this order's handling before; the
+		// real filter compares the group, not the order sequence number, and
+		// relies on that)
 	}
 }
 
@@ -538,7 +554,9 @@ func vOrderScenarios() []vOrderScenario {
 				}
 			}
 			add(vOrderScenario{Name: fmt.Sprintf("fail=%s,existing=%s", pt, existing), FailAt: pt, ExistingBid: existing})
-			add(vOrderScenario{Name: fmt.Sprintf("event=unrelated,point=%s,existing=%s", pt, existing), Point: pt, Event: "unrelated", Outcome: "ok", ExistingBid: existing, AfterWait: "order-closed"})
+			for _, uev := range []string{"unrelated", "sibling-lease-won", "sibling-order-closed"} {
+				add(vOrderScenario{Name: fmt.Sprintf("event=%s,point=%s,existing=%s", uev, pt, existing), Point: pt, Event: uev, Outcome: "ok", ExistingBid: existing, AfterWait: "order-closed"})
+			}
 		}
 		for _, ev := range append(append([]string{}, events...), "bid-timeout") {
 			if existing == "found" && ev == "bid-timeout" {
@@ -673,7 +691,7 @@ func vOrderFreeRuns(res *vs.Result, n int) {
 		r := vs.NewRand(seed, uint64(i)+0xC13)
 		sc := vOrderScenario{Name: fmt.Sprintf("free/%d", i), Free: true}
 		sc.ExistingBid = []string{"", "notfound", "found"}[r.Intn(3)]
-		ev := []string{"order-closed", "lease-won", "lease-lost", "shutdown", "unrelated"}[r.Intn(5)]
+		ev := []string{"order-closed", "lease-won", "lease-lost", "shutdown", "unrelated", "sibling-lease-won"}[r.Intn(6)]
 		sc.Event = ev
 		s := vNewOrderState(sc)
 		var wg sync.WaitGroup
